@@ -90,6 +90,9 @@ class SolverRun:
         self.methods = Counter()
         self.tags = Counter()
         self.watchdog = 0
+        self.drift = 0
+        self.drift_samples = []
+        self.levelb = Counter()   # accepted / rejected attempts of the explicit solvers seen by the Level-B parse
 
 
 def validate(fam, path, res):
@@ -135,6 +138,15 @@ def validate(fam, path, res):
                 pr = cand[0] if cand else None
             res.viol.append((prop, clause, fam, calls.get(cid), rets.get(cid), pr, calls))
             nv += 1
+    for l in t.printed:
+        if l.startswith('<<"DRIFT"'):
+            res.drift += 1
+            if len(res.drift_samples) < 3:
+                res.drift_samples.append(l[:200])
+        elif l.startswith('<<"COVER"'):
+            q = vlib.parse_tla(l)
+            res.levelb[q[1] + ":accepted_attempts"] += q[2]
+            res.levelb[q[1] + ":rejected_attempts"] += q[3]
     for c in calls.values():
         res.methods[c["method"]] += 1
         for tg in c.get("tags", []):
@@ -208,6 +220,7 @@ def run_for(prop, tier, seed, work):
     cov = {"runs": res.runs, "pairs": res.pairs, "trace_lines": res.lines, "states": res.states, "transitions": res.transitions,
            "per_family": res.per_family, "statuses": dict(res.status), "methods": dict(res.methods), "tags": dict(res.tags),
            "watchdog_cases": res.watchdog, "samples": res.samples[:4],
+           "drift": res.drift, "drift_samples": res.drift_samples, "level_b_attempts_seen": dict(res.levelb),
            "contract_failures_of_other_properties_seen": dict(other)}
     return viol, cov, list(ASSUMPTIONS)
 
